@@ -6,6 +6,7 @@ import (
 	"fmt"
 	"io"
 	"reflect"
+	"strings"
 	"sync"
 	"time"
 
@@ -211,6 +212,20 @@ func genCall(t *rapid.T, msize int) CallSpec {
 		c.ErrText = string(smallStr(t, "errtext", min(strmax, 60)))
 		if c.ErrText == "" {
 			c.ErrText = "e"
+		}
+		if rapid.IntRange(0, 3).Draw(t, "specialerr") == 0 {
+			// texts with format verbs, texts the library itself uses, texts around Plan 9's ERRMAX (128)
+			var cands []string
+			for _, x := range []string{"progress 50%", "%s %d %v %%", "100%", "duplicate tag", "unknown tag", "short write", "closed",
+				strings.Repeat("x", 127), strings.Repeat("x", 128), strings.Repeat("y", 300)} {
+				if len(x) <= strmax {
+					cands = append(cands, x)
+				}
+			}
+			if len(cands) == 0 {
+				cands = []string{"%"}
+			}
+			c.ErrText = rapid.SampledFrom(cands).Draw(t, "specialerrtext")
 		}
 		c.Plain = rapid.Bool().Draw(t, "plain")
 		c.Wrap = rapid.IntRange(0, 3).Draw(t, "wrap") == 0
@@ -421,6 +436,10 @@ func checkCall(c *CallSpec, got *received, calls int, o outcome, msize int) erro
 		}
 		if !ok || re.Ename != wantText {
 			return fmt.Errorf("%s: session failed with %q, caller got %v", c.Method, wantText, o.err)
+		}
+		// "errors by their text": what the caller prints ends with exactly the text S failed with
+		if txt := o.err.Error(); !strings.HasSuffix(txt, wantText) {
+			return fmt.Errorf("%s: session failed with the text %q, the caller's error reads %q", c.Method, wantText, txt)
 		}
 		return nil
 	}
